@@ -30,6 +30,7 @@ type Directives struct {
 	Packages []string          `json:"packages"` // relative to module, e.g. pkg/task/queue
 	Stubs    []string          `json:"stubs"`    // pkgpath.(*Recv).Name or pkgpath.Name
 	Enters   map[string]string `json:"enters"`   // func id -> key expression (Go source)
+	Observes map[string]string `json:"observes"` // func id -> argument list (Go source) of an inserted zzsimrt.Observe(...) call
 	SkipFile []string          `json:"skipFiles"`
 }
 
@@ -81,6 +82,7 @@ func main() {
 	overlay := map[string]string{}
 	stubUsed := map[string]bool{}
 	enterUsed := map[string]bool{}
+	observeUsed := map[string]bool{}
 	nYield, nFiles := 0, 0
 	for _, p := range pkgs {
 		if len(p.Errors) > 0 {
@@ -94,7 +96,7 @@ func main() {
 			if strings.HasSuffix(fn, "_mock.go") || skip(fn, d.SkipFile) {
 				continue
 			}
-			rw := &rewriter{pkg: p, file: f, fset: p.Fset, d: &d, instrumented: instrumented, stubUsed: stubUsed, enterUsed: enterUsed}
+			rw := &rewriter{pkg: p, file: f, fset: p.Fset, d: &d, instrumented: instrumented, stubUsed: stubUsed, enterUsed: enterUsed, observeUsed: observeUsed}
 			rw.run()
 			nYield += rw.nYield
 			var buf bytes.Buffer
@@ -120,6 +122,12 @@ func main() {
 	for s := range d.Enters {
 		if !enterUsed[s] {
 			fmt.Fprintln(os.Stderr, "directive error: enter target not found:", s)
+			os.Exit(2)
+		}
+	}
+	for s := range d.Observes {
+		if !observeUsed[s] {
+			fmt.Fprintln(os.Stderr, "directive error: observe target not found:", s)
 			os.Exit(2)
 		}
 	}
@@ -161,6 +169,7 @@ type rewriter struct {
 	instrumented map[string]bool
 	stubUsed     map[string]bool
 	enterUsed    map[string]bool
+	observeUsed  map[string]bool
 	nYield       int
 	needRT       bool
 	tmp          int
@@ -242,6 +251,10 @@ func (r *rewriter) run() {
 			continue
 		}
 		id := r.funcID(fd)
+		if args, ok := r.d.Observes[id]; ok {
+			r.observeUsed[id] = true
+			r.prependObserve(fd.Body, args)
+		}
 		if key, ok := r.d.Enters[id]; ok {
 			r.enterUsed[id] = true
 			r.prependEnter(fd.Body, key)
@@ -316,6 +329,16 @@ func usesImport(f *ast.File, p *packages.Package, path string) bool {
 		return true
 	})
 	return used
+}
+
+func (r *rewriter) prependObserve(body *ast.BlockStmt, args string) {
+	e, err := parser.ParseExpr("f(" + args + ")")
+	if err != nil {
+		fmt.Fprintln(os.Stderr, "directive error: bad observe args", args, err)
+		os.Exit(2)
+	}
+	call := r.rtCall("Observe", e.(*ast.CallExpr).Args...)
+	body.List = append([]ast.Stmt{&ast.ExprStmt{X: call}}, body.List...)
 }
 
 func (r *rewriter) prependEnter(body *ast.BlockStmt, keyExpr string) {
